@@ -380,8 +380,8 @@ type finding struct {
 	// site: a race report with this function in one of its stacks gets the
 	// class "<prop>/race:via <frame>" instead of the pair of first functions
 	RaceFrame string `json:"race_frame,omitempty"`
-	Commit      string `json:"commit,omitempty"`
-	What        string `json:"what"`
+	Commit    string `json:"commit,omitempty"`
+	What      string `json:"what"`
 }
 
 func loadFindings() []finding {
@@ -432,6 +432,9 @@ type workerResult struct {
 	outDir   string
 	crashed  bool
 	watchdog bool
+	// hang: the watchdog fired while a task was executing b6 code without
+	// reaching a scheduling point (class of the violation), "" otherwise
+	hang string
 }
 
 func runWorker(bin string, env []string, outDir string, idx int) *workerResult {
@@ -474,7 +477,62 @@ func runWorker(bin string, env []string, outDir string, idx int) *workerResult {
 	return r
 }
 
+var reGoroutine = regexp.MustCompile(`(?m)^goroutine \d+ \[([^\],]+)[^\]]*\]:$`)
+
+// hangClass inspects a watchdog dump. If a goroutine of the simulation is
+// running (or runnable) inside b6 code - a loop that never reaches a
+// scheduling point, e.g. decoding a corrupted structure for ever - the stall
+// is the program's, not the harness's: it returns the violation class. All
+// goroutines blocked means something blocked where the simulator cannot see
+// it, which is a harness problem ("", false).
+func hangClass(prop, stderr string) (string, bool) {
+	i := strings.Index(stderr, "WATCHDOG:")
+	if i < 0 {
+		return "", false
+	}
+	for _, g := range strings.Split(stderr[i:], "\n\n") {
+		m := reGoroutine.FindStringSubmatch(g)
+		if m == nil || (m[1] != "running" && m[1] != "runnable") || !strings.Contains(g, "synctest bubble") {
+			continue
+		}
+		lines := strings.Split(g, "\n")
+		if len(lines) < 2 || !strings.HasPrefix(lines[1], "diagonal.works/b6") {
+			continue // the innermost frame must be b6 code
+		}
+		// class: the outermost b6 function of that task (the innermost one
+		// is wherever the loop happened to be when the dump was taken)
+		fn := lines[1]
+		for _, l := range lines[1:] {
+			if strings.HasPrefix(l, "diagonal.works/b6") {
+				fn = l
+			}
+		}
+		if j := strings.LastIndex(fn, "("); j > 0 {
+			fn = fn[:j]
+		}
+		return prop + "/hang:no-progress:" + strings.TrimPrefix(fn, "diagonal.works/b6/"), true
+	}
+	return "", false
+}
+
 var reRaceFunc = regexp.MustCompile(`(?m)^  (diagonal\.works/b6\S*?)\(\)\s*$`)
+
+// hangDetail extracts the stack of the goroutine that hangClass found.
+func hangDetail(stderr string) string {
+	i := strings.Index(stderr, "WATCHDOG:")
+	if i < 0 {
+		return ""
+	}
+	for _, g := range strings.Split(stderr[i:], "\n\n") {
+		m := reGoroutine.FindStringSubmatch(g)
+		if m != nil && (m[1] == "running" || m[1] == "runnable") && strings.Contains(g, "synctest bubble") {
+			if lines := strings.Split(g, "\n"); len(lines) > 1 && strings.HasPrefix(lines[1], "diagonal.works/b6") {
+				return firstLines(g, 24)
+			}
+		}
+	}
+	return ""
+}
 
 // crashClass derives a stable class from a crashed worker's stderr.
 func crashClass(prop, stderr string) (string, string) {
@@ -630,7 +688,12 @@ func runBatch(bin string, race bool, prop string, seed uint64, tc tierCfg, outRo
 				}
 				r := runWorker(bin, e, outDir, w+inc*tc.workers)
 				res[w] = append(res[w], r)
-				if !r.crashed || r.lastRun < 0 || inc >= 300 {
+				if r.watchdog {
+					if c, ok := hangClass(prop, r.stderr); ok {
+						r.hang = c
+					}
+				}
+				if (!r.crashed && r.hang == "") || r.lastRun < 0 || inc >= 300 {
 					break
 				}
 				start = uint64(r.lastRun) + uint64(tc.workers)
@@ -696,9 +759,22 @@ func toU32s(v any) []uint32 {
 
 func collectFailures(prop string, seed uint64, bo *batchOutcome, into map[string]*found) (watchdogs []string) {
 	for _, r := range bo.results {
-		if r.watchdog {
+		if r.watchdog && r.hang == "" {
 			watchdogs = append(watchdogs, fmt.Sprintf("worker %d at run %d:\n%s", r.idx, r.lastRun, tail(r.stderr, 3000)))
 			continue
+		}
+		if r.hang != "" {
+			detail := "a task executed b6 code for longer than the watchdog limit without reaching a scheduling point (the call never returns):\n" + hangDetail(r.stderr)
+			cur := into[r.hang]
+			if cur == nil || uint64(r.lastRun) < cur.run {
+				n := &found{class: r.hang, detail: detail, seed: seed, run: uint64(r.lastRun), live: true, race: bo.race, count: 1}
+				if cur != nil {
+					n.count += cur.count
+				}
+				into[r.hang] = n
+			} else {
+				cur.count++
+			}
 		}
 		if r.summary != nil {
 			for _, f := range r.summary.Failures {
@@ -753,6 +829,9 @@ func confirmReplay(bins map[bool]string, prop string, rf *replayFile, path strin
 	env := append(os.Environ(), "VERIF_PROP="+prop, "VERIF_REPLAY="+path)
 	r := runWorker(bins[rf.Race], env, outDir, 0)
 	if r.watchdog {
+		if c, ok := hangClass(prop, r.stderr); ok {
+			return c, "a task executed b6 code for longer than the watchdog limit without reaching a scheduling point (the call never returns):\n" + hangDetail(r.stderr), nil
+		}
 		trouble("watchdog during replay:\n%s", tail(r.stderr, 3000))
 	}
 	b, err := os.ReadFile(filepath.Join(outDir, "replay.json"))
@@ -893,7 +972,7 @@ func main() {
 		}
 		rf := &replayFile{Property: prop, Class: c, Detail: f.detail, Seed: f.seed, Run: f.run, TreeHash: treeKey(), TapeG: f.tapeG, TapeS: f.tapeS, Live: f.live, Race: f.race, Record: f.record}
 		known := matchFinding(findings, prop, c, f.detail)
-		isCrash := strings.Contains(c, "/crash:") || strings.Contains(c, "/race:")
+		isCrash := strings.Contains(c, "/crash:") || strings.Contains(c, "/race:") || strings.Contains(c, "/hang:")
 		if known == nil && !isCrash {
 			rf = shrink(bins, prop, rf, tc)
 			rf.Race = f.race
@@ -916,6 +995,9 @@ func main() {
 			if strings.Contains(gotClass, "/race:") {
 				gotClass = c
 			}
+		}
+		if strings.Contains(c, "/hang:") && strings.Contains(gotClass, "/hang:") {
+			gotClass = c // the same schedule hangs again; where exactly it spins may differ
 		}
 		if gotClass != c {
 			trouble("violation class %q (seed %d run %d) did not reproduce from its replay file %s in a fresh process (got %q): the run is not deterministic; this is a harness problem, not reported as a violation", c, f.seed, f.run, path, gotClass)
